@@ -87,7 +87,7 @@ CHECKS = {
         technique='Lean 4 proof over a hand-written executable model, tied to /repo on every run by differential correspondence (compiled Lean driver vs real code on generated inputs) and regenerated source tables; independent Python oracle searches for failing inputs',
         ref='§4 C15'),
     'C16': dict(
-        text='13 theorems by induction over arbitrary edit histories (closure principle Cfg.Closed): last entry = current value, strictly increasing unique sequence numbers, suspended edits are silent, one entry per write, history never read by build, location provider returns the user frame, table obligations on the regenerated exclusion list and store write sites. Correspondence on generated histories incl. tag edits and real threads.',
+        text='13 theorems by induction over arbitrary edit histories (closure principle Cfg.Closed): last entry = current value, strictly increasing unique sequence numbers, suspended edits are silent, one entry per write, history never read by build, location provider returns the user frame, table obligations on the regenerated exclusion list and store write sites; the constructor (incl. Annotated tags) establishes the invariant. Correspondence on generated histories incl. tag edits, annotated signatures and real threads; the location model runs on the real stack captured at the provider for edits made from generated frames.',
         note=TB + 'Partial: C16_edit_modules_excluded_partial carries one open finding (tagging.py not excluded).',
         technique='Lean 4 proof over a hand-written executable model, tied to /repo on every run by differential correspondence (compiled Lean driver vs real code on generated inputs) and regenerated source tables; independent Python oracle searches for failing inputs',
         ref='§4 C16'),
@@ -97,8 +97,8 @@ CHECKS = {
         technique='Lean 4 proof over a hand-written executable model, tied to /repo on every run by differential correspondence (compiled Lean driver vs real code on generated inputs) and regenerated source tables; independent Python oracle searches for failing inputs',
         ref='§4 C17'),
     'C18': dict(
-        text='Theorems: draining a directive queue applies exactly its directives in order, each once; parsing accumulates; the first directive must be a config. Correspondence: directive lists vs the real flag parser; printed paths re-parsed as override paths.',
-        note=TB + 'Partial: the path grammar (printing vs parsing) is tied by correspondence only.',
+        text='13 theorems. Queue: draining applies exactly the directives in order, each once; parsing accumulates; the first directive must be a config. Path grammar (Model/Paths.lean = printing._path_str, the regex scanner of parse_path with literal_eval of keys, the leading-dot rule, the = split of set_value): every in-scope path prints; the printed text parses back to the very same steps; printing is injective; path=value splits where it was joined. Correspondence: directive scripts vs a real FiddleFlag (also with a second flag pending); generated paths, their printed, mutated and malformed texts vs the real printer and both real parsers.',
+        note=TB + 'Partial: ASCII word/digit classes and printable-ASCII string keys in the model (other text answers unsupported and is compared by the oracle only); leaf enumeration, parse_value (ast.literal_eval) and config_str round trips are oracle-only.',
         technique='Lean 4 proof over a hand-written executable model, tied to /repo on every run by differential correspondence (compiled Lean driver vs real code on generated inputs) and regenerated source tables; independent Python oracle searches for failing inputs',
         ref='§4 C18'),
     'C19': dict(
